@@ -1,8 +1,12 @@
 """C08 - MapSpec parsing, printing, shapes and index maps are mutually consistent."""
 from __future__ import annotations
 
+import fcntl
 import itertools
+import re
 
+from .. import common
+from .. import translate_index as ti
 from ..coqlit import Err, Ok, cbool, clist, cnat, copt, cpair, cstr
 
 PROP = "C08"
@@ -10,14 +14,30 @@ RUN = "Run_C08"
 THEOREMS = "Props/C08.v"
 ANCHORS = [("pipefunc/map/_mapspec.py",
             ["shape_to_strides", "ArraySpec", "MapSpec", "_shape_to_key", "_parse_index_string",
-             "_parse_indexed_arrays", "_validate_shapes", "_get_common_dim", "_get_output_dim"])]
+             "_parse_indexed_arrays", "_validate_shapes", "_get_common_dim", "_get_output_dim",
+             "validate_consistent_axes", "mapspec_axes", "mapspec_dimensions"]),
+           ("pipefunc/map/_storage_array/_base.py", ["select_by_mask", "iterate_shape_indices"]),
+           ("pipefunc/map/_shapes.py", ["external_shape_from_mask", "internal_shape_from_mask"])]
 RULE = ("random well-formed MapSpecs (<=3 inputs, <=2 outputs, <=4 index names, rank<=3, ':' axes, scoped names, "
         "random whitespace) x shapes with sizes 0..4 x ALL linear indices, direct constructor calls, rename/add_axes, "
-        "and malformed strings from mutation operators; non-trivial = >=2 index names or a ':' axis or a malformed "
-        "string; distinct by (kind, canonical spec, shapes)")
+        "and malformed strings from mutation operators; lists of 1..4 MapSpecs sharing 2..5 array names (consistent, "
+        "other rank / other index name in one occurrence, ':'-only dimensions) through validate_consistent_axes / "
+        "mapspec_axes / mapspec_dimensions; direct calls of shape_to_strides / _shape_to_key / "
+        "select_by_mask / external_shape_from_mask / internal_shape_from_mask on random shapes (sizes 0..4, rank <= 4), "
+        "masks and tuples (exact, too short, too long); plus the translator obligations: these five functions and "
+        "MapSpec.output_key / input_keys are re-translated from the source into coq/gen/Gen_Index.v and "
+        "coq/gen/Check_Index.v (equality with the hand-written definitions for ALL inputs + transfer of the index "
+        "theorems) is re-checked (8 cases of kind gen); non-trivial = >=2 index names or a ':' axis or a malformed "
+        "string or an index call of rank >= 2 or a gen case; distinct by (kind, canonical spec, shapes)")
 ASSUMPTIONS = ["ASCII identifiers only (Python's \\w / isidentifier are Unicode aware)",
                "rank >= 1 arrays for the print/parse round trip (the notation cannot write rank 0)"]
-TRUSTED = ["Model/MapSpec.v mirrors pipefunc/map/_mapspec.py by hand; tie = per-run differential execution"]
+TRUSTED = ["Model/MapSpec.v mirrors pipefunc/map/_mapspec.py by hand; tie = per-run differential execution",
+           "harness/translate_index.py (Python ast -> Gallina over Base/PyPrim.v: the meaning it gives to for/range/zip/"
+           "append/generator expressions/`//`/`%`/indexing/dict; ints are nat because the translated functions use no "
+           "subtraction; tuple[Any, ...] read as homogeneous; f-strings of ints/tuples do not raise; self.input_indices / "
+           "external_indices / inputs are parameters whose values come from the hand-written model); validated "
+           "dynamically by the direct-call cases (implementation vs Base/Index.v, which Check_Index.v proves equal to "
+           "the translation)"]
 
 NAMES = ["a", "b", "x", "y1", "_z", "s.a", "s.b", "long_name"]
 INDICES = ["i", "j", "k", "l_1"]
@@ -50,7 +70,161 @@ def emit_case(c) -> str:
         return f"(CRename {_raw_lit(c['i'])} {_raw_lit(c['o'])} {clist([cpair(cstr(a), cstr(b)) for a, b in c['ren']])})"
     if k == "add_axes":
         return f"(CAddAxes {_raw_lit(c['i'])} {_raw_lit(c['o'])} {_axes_lit(c['ax'])})"
+    if k == "idx":
+        nats = lambda l: clist([cnat(x) for x in l])   # noqa: E731
+        bools = lambda l: clist([cbool(bool(x)) for x in l])   # noqa: E731
+        f = c["f"]
+        if f == "strides":
+            return f"(CIdx (IndexOps.IStrides {nats(c['sh'])}))"
+        if f == "key":
+            return f"(CIdx (IndexOps.IKey {nats(c['sh'])} {cnat(c['n'])}))"
+        if f == "select":
+            return f"(CIdx (IndexOps.ISelect {bools(c['mask'])} {nats(c['e'])} {nats(c['i'])}))"
+        if f == "ext":
+            return f"(CIdx (IndexOps.IExt {nats(c['sh'])} {bools(c['mask'])}))"
+        if f == "int":
+            return f"(CIdx (IndexOps.IInt {nats(c['sh'])} {bools(c['mask'])}))"
+        raise ValueError(f)
+    if k == "gen":
+        return f"(CGen {cstr(c['fn'])})"
+    if k == "axes":
+        return f"(CAxes {clist([cpair(_raw_lit(i), _raw_lit(o)) for i, o in c['specs']])})"
     raise ValueError(k)
+
+
+# ------------------------------------------------------------------ translator obligation (coq/gen/Check_Index.v)
+GEN_DIR = common.COQ / "gen"
+COROLLARIES = "corollaries"
+# obligation -> the theorem of Check_Index.v that closes it
+OBLIGATION_THEOREM = {
+    "shape_to_strides": "gen_shape_to_strides_eq",
+    "_shape_to_key": "gen_shape_to_key_eq",
+    "select_by_mask": "gen_select_by_mask_eq",
+    "external_shape_from_mask": "gen_external_shape_from_mask_eq",
+    "internal_shape_from_mask": "gen_internal_shape_from_mask_eq",
+    "MapSpec.output_key": "gen_output_key_eq",
+    "MapSpec.input_keys": "gen_input_keys_eq",
+    COROLLARIES: "index_obligations",
+}
+_index = {}
+
+
+def _coqc_gen(fname, timeout=300):
+    return common.sh(["coqc", "-Q", "theories", "Verif", "-Q", "gen", "VerifGen", f"gen/{fname}"], timeout=timeout,
+                     cwd=common.COQ)
+
+
+def _proof_status(src, out, ok):
+    """Per obligation: 'proved' | 'FAILED in <lemma>: <coq message>' | 'not checked (blocked by <lemma>)';
+    second component: the obligation that owns the first failing lemma."""
+    if ok:
+        return {n: "proved" for n in OBLIGATION_THEOREM}, None
+    heads = [(m.start(), m.group(1)) for m in
+             re.finditer(r"^(?:Theorem|Lemma|Corollary|Definition)\s+([A-Za-z0-9_']+)", src, re.M)]
+    line_of = lambda pos: src.count("\n", 0, pos) + 1   # noqa: E731
+    m = re.search(r'File "[^"]*Check_Index\.v", line (\d+)', out)
+    fail_line = int(m.group(1)) if m else 0
+    failing = None
+    for pos, name in heads:
+        if line_of(pos) <= fail_line:
+            failing = name
+    msg = " ".join(out[m.end():].split()) if m else " ".join(out.split())[-200:]
+    msg = (msg[msg.index("Error:"):] if "Error:" in msg else msg)[:200]
+    failing = failing or "<import of the generated file>"
+    order = [name for _, name in heads]
+    status = {}
+    prev_thm_idx = -1
+    for obl, thm in OBLIGATION_THEOREM.items():
+        if thm not in order:
+            status[obl] = f"FAILED: theorem {thm} is missing from Check_Index.v"
+            continue
+        idx = order.index(thm)
+        end_line = line_of(heads[idx + 1][0]) if idx + 1 < len(heads) else 10 ** 9
+        if fail_line >= end_line:
+            status[obl] = "proved"
+        elif failing in order and prev_thm_idx < order.index(failing) <= idx:
+            status[obl] = f"FAILED in {failing}: {msg}"
+        else:
+            status[obl] = f"not checked (blocked by {failing})"
+        prev_thm_idx = idx
+    owners = [o for o, v in status.items() if v.startswith("FAILED")]
+    return status, (owners[0] if owners else failing)
+
+
+def index_obligations():
+    """Translate the source, write gen/Gen_Index.v, compile it and gen/Check_Index.v (once per process).
+    Returns {"res": translator result per function, "proof": status per obligation, "failing": lemma or None,
+             "infra": message or None}."""
+    if _index:
+        return _index
+    res = ti.translate(common.REPO)
+    infra, failing = None, None
+    GEN_DIR.mkdir(exist_ok=True)
+    with open(GEN_DIR / ".lock", "w") as lk:
+        fcntl.flock(lk, fcntl.LOCK_EX)
+        try:
+            (GEN_DIR / "Gen_Index.v").write_text(ti.emit_coq(res, common.REPO))
+            src = (GEN_DIR / "Check_Index.v").read_text()
+            for f in ("Gen_Index.v", "Check_Index.v"):
+                m = common.FORBIDDEN.search(common.strip_comments((GEN_DIR / f).read_text()))
+                if m:
+                    infra = f"forbidden construct {m.group(0)!r} in coq/gen/{f}"
+            rc, out = _coqc_gen("Gen_Index.v")
+            if rc != 0:
+                # every emitted definition is built from typed combinators; an ill-typed translation means the
+                # source left the subset in a way the translator's own type check missed: the obligation is broken
+                proof = {n: "FAILED: generated coq/gen/Gen_Index.v does not compile: " + " ".join(out.split())[:160]
+                         for n in OBLIGATION_THEOREM}
+                failing = "Gen_Index.v"
+            else:
+                rc2, out2 = _coqc_gen("Check_Index.v")
+                ok = rc2 == 0 and out2.count("Closed under the global context") == 1 and "Axioms:" not in out2
+                if rc2 == 0 and not ok:
+                    infra = infra or "coq/gen/Check_Index.v compiles but is not closed under the global context:\n" + out2[-800:]
+                proof, failing = _proof_status(src, out2, ok)   # raw source: coqc reports raw line numbers
+        finally:
+            fcntl.flock(lk, fcntl.LOCK_UN)
+    _index.update(res=res, proof=proof, failing=failing, infra=infra)
+    return _index
+
+
+def run_gen(c):
+    o = index_obligations()
+    fn = c["fn"]
+    if fn == COROLLARIES:
+        bad = [n for n in ti.NAMES if o["res"][n]["error"]]
+        tr = "translated" if not bad else "untranslatable: " + ", ".join(bad)
+    else:
+        r = o["res"].get(fn)
+        tr = "translated" if r and not r["error"] else "untranslatable: " + (r["error"] if r else "unknown function")
+    return [tr, o["proof"].get(fn, "unknown obligation")]
+
+
+def pre_checks(ctx):
+    import os
+
+    o = index_obligations()
+    if o["infra"]:
+        yield o["infra"]
+    for prob in ti.selftest(common.REPO):      # the translator must keep rejecting out-of-subset variants of the source
+        yield "harness/translate_index.py no longer fails closed: " + prob
+    if ctx.get("tier") == "thorough" and not os.environ.get("VERIF_NO_COQCHK") and not o.get("chk_done") \
+            and all(v == "proved" for v in o["proof"].values()):
+        # independent re-check of the compiled obligations file and everything it depends on (as for Props/C08.v)
+        o["chk_done"] = True
+        with open(GEN_DIR / ".lock", "w") as lk:
+            fcntl.flock(lk, fcntl.LOCK_EX)
+            try:
+                _coqc_gen("Gen_Index.v")
+                _coqc_gen("Check_Index.v")
+                rc, out = common.sh(["coqchk", "-silent", "-o", "-Q", "theories", "Verif", "-Q", "gen", "VerifGen",
+                                     "VerifGen.Check_Index"], timeout=1500, cwd=common.COQ)
+            finally:
+                fcntl.flock(lk, fcntl.LOCK_UN)
+        fields = re.findall(r"\* (?:Axioms|Constants/Inductives relying on type-in-type|Constants/Inductives relying on "
+                            r"unsafe \(co\)fixpoints|Inductives whose positivity is assumed):\s*(\S+)", out)
+        if rc != 0 or len(fields) != 4 or any(f != "<none>" for f in fields):
+            o["proof"][COROLLARIES] = "FAILED: coqchk on VerifGen.Check_Index: " + " ".join(out.split())[-200:]
 
 
 # ------------------------------------------------------------------ implementation driver
@@ -75,10 +249,44 @@ def _key_obs(d):
     return [[k, [":" if isinstance(x, slice) else int(x) for x in v]] for k, v in d.items()]
 
 
+def run_idx(c):
+    from pipefunc.map._mapspec import _shape_to_key, shape_to_strides
+    from pipefunc.map._shapes import external_shape_from_mask, internal_shape_from_mask
+    from pipefunc.map._storage_array._base import select_by_mask
+
+    f = c["f"]
+    ints = lambda t: [int(x) for x in t]   # noqa: E731
+    if f == "strides":
+        return _res(lambda: ints(shape_to_strides(tuple(c["sh"]))))
+    if f == "key":
+        return _res(lambda: ints(_shape_to_key(tuple(c["sh"]), c["n"])))
+    if f == "select":
+        return _res(lambda: ints(select_by_mask(tuple(bool(m) for m in c["mask"]), tuple(c["e"]), tuple(c["i"]))))
+    if f == "ext":
+        return _res(lambda: ints(external_shape_from_mask(tuple(c["sh"]), tuple(bool(m) for m in c["mask"]))))
+    if f == "int":
+        return _res(lambda: ints(internal_shape_from_mask(tuple(c["sh"]), tuple(bool(m) for m in c["mask"]))))
+    raise ValueError(f)
+
+
 def run_impl(c):
     from pipefunc.map._mapspec import MapSpec
 
     k = c["kind"]
+    if k == "gen":
+        return run_gen(c)
+    if k == "idx":
+        return run_idx(c)
+    if k == "axes":
+        from pipefunc.map._mapspec import mapspec_axes, mapspec_dimensions, validate_consistent_axes
+
+        try:
+            ms = [_mk(i, o) for i, o in c["specs"]]
+        except Exception as e:  # noqa: BLE001
+            return ["bad-case", Err(e)]
+        return [_res(lambda: validate_consistent_axes(ms) or []),
+                [[n, list(ax)] for n, ax in mapspec_axes(ms).items()],
+                [[n, int(r)] for n, r in mapspec_dimensions(ms).items()]]
     if k == "parse":
         return _res(lambda: _ms_obs(MapSpec.from_string(c["s"])))
     if k == "build":
@@ -234,6 +442,74 @@ def _dedupe(kvs):
     return [[k, v] for k, v in d.items()]
 
 
+def gen_idx(rng):
+    """Direct calls of the index helpers."""
+    f = rng.choice(["strides", "key", "key", "select", "select", "ext", "int"])
+    rank = rng.choice([0, 1, 2, 2, 3, 3, 4])
+    lo = 0 if rng.random() < 0.15 else 1
+    sh = [rng.randint(lo, 4) for _ in range(rank)]
+    if f == "strides":
+        return {"kind": "idx", "f": f, "sh": sh}
+    if f == "key":
+        n = 1
+        for d in sh:
+            n *= d
+        r = rng.random()
+        return {"kind": "idx", "f": f, "sh": sh, "n": rng.randrange(n) if n and r < 0.8 else n + rng.randrange(3)}
+    mask = [rng.random() < 0.5 for _ in range(rng.randint(0, 5))]
+    if f == "select":
+        ne, ni = sum(mask), len(mask) - sum(mask)
+        r = rng.random()
+        if r < 0.6:
+            pass
+        elif r < 0.8:
+            if rng.random() < 0.5:
+                ne = max(0, ne - 1)
+            else:
+                ni = max(0, ni - 1)
+        else:
+            ne, ni = ne + rng.randint(0, 2), ni + rng.randint(0, 2)
+        return {"kind": "idx", "f": f, "mask": mask, "e": [rng.randint(0, 9) for _ in range(ne)],
+                "i": [rng.randint(10, 19) for _ in range(ni)]}
+    k = len(mask) if rng.random() < 0.8 else rng.randint(0, 5)
+    return {"kind": "idx", "f": f, "sh": [rng.randint(0, 9) for _ in range(k)], "mask": mask}
+
+
+def gen_axes(rng):
+    """A list of MapSpecs sharing array names (as the functions of one pipeline do): each array has a rank and, per
+    dimension, an index name; every occurrence writes the name or ':' (inputs only); faults: another rank, another name
+    at one position of one occurrence."""
+    arrays = {}
+    names = rng.sample(NAMES, rng.randint(2, 5))
+    for nm in names:
+        r = rng.randint(1, 3)
+        arrays[nm] = rng.sample(INDICES, r)
+    specs = []
+    for _ in range(rng.randint(1, 4)):
+        out = rng.choice(names)
+        oax = list(arrays[out])
+        ins = []
+        for nm in rng.sample([x for x in names if x != out], rng.randint(0, min(3, len(names) - 1))):
+            ax = [a if (a in oax and rng.random() < 0.7) else None for a in arrays[nm]]
+            ins.append([nm, ax])
+        specs.append([ins, [[out, oax]]])
+    r = rng.random()
+    if r < 0.3 and specs:
+        # inconsistent on purpose
+        i, o = rng.choice(specs)
+        tgt = rng.choice(i + o)
+        if rng.random() < 0.5:
+            tgt[1] = tgt[1] + [None] if tgt in i else tgt[1][:-1] or tgt[1]
+        else:
+            k = rng.randrange(len(tgt[1]))
+            if tgt in i:
+                oax = o[0][1]
+                other = [a for a in oax if a != tgt[1][k] and a not in tgt[1]]
+                if other:
+                    tgt[1][k] = rng.choice(other)
+    return {"kind": "axes", "specs": specs}
+
+
 def generate(rng, tier, mult):
     return [_clean(c) for c in _generate(rng, tier, mult)]
 
@@ -247,8 +523,11 @@ def _clean(c):
 
 def _generate(rng, tier, mult):
     n = (250 if tier == "quick" else 1500) * mult
-    cases = []
+    cases = [{"kind": "gen", "fn": fn} for fn in OBLIGATION_THEOREM]
     for _ in range(n):
+        cases.append(gen_axes(rng))
+        cases.append(gen_idx(rng))
+        cases.append(gen_idx(rng))
         ins, outs = gen_wf(rng, allow_dup=rng.random() < 0.15)
         text = to_string(rng, ins, outs)
         cases.append({"kind": "parse", "s": text})
@@ -317,9 +596,16 @@ def _generate(rng, tier, mult):
 
 def nontrivial_key(c):
     k = c["kind"]
+    if k == "gen":
+        return (k, c["fn"])
+    if k == "axes":
+        return (k, c["specs"]) if len(c["specs"]) >= 2 else None
+    if k == "idx":
+        big = len(c.get("sh") or c.get("mask") or []) >= 2
+        return (k, c["f"], c.get("sh"), c.get("n"), c.get("mask"), c.get("e"), c.get("i")) if big else None
     if k == "parse":
         return (k, c["s"]) if ("," in c["s"] or ":" in c["s"]) else None
-    idx = {a for _, ax in c["i"] + c["o"] for a in ax}
+    idx = {a for _, ax in c["i"] + c["o"] for a in ax}   # noqa: C416
     if len(idx - {None}) >= 2 or None in idx:
         return (k, c["i"], c["o"], c.get("sh"), c.get("ishapes"), c.get("internal"), c.get("ren"), c.get("ax"))
     return None
@@ -329,10 +615,23 @@ def distribution(c):
     d = {"kind": c["kind"]}
     if c["kind"] == "keys":
         d["rank"] = len(c["sh"])
+    if c["kind"] == "idx":
+        d["idx"] = c["f"]
     return d
 
 
 def finding_id(c, impl_obs, kind):
+    if c["kind"] == "gen":
+        # one replay per broken obligation: obligations that are merely blocked by it are grouped with it
+        o = index_obligations()
+        st = impl_obs[1] if isinstance(impl_obs, list) and len(impl_obs) == 2 else ""
+        if isinstance(st, str) and st.startswith("not checked") and o.get("failing"):
+            return f"index-obligation:{o['failing']}"
+        return f"index-obligation:{c['fn']}"
+    if c["kind"] == "idx":
+        return f"index-call:{c['f']}"
+    if c["kind"] == "axes":
+        return "axes-of-mapspec-list"
     # a ':' axis in a non-first output accepted by the constructor / parser
     if c["kind"] in ("parse", "build") and isinstance(impl_obs, list) and impl_obs and impl_obs[0] == "ok":
         return "colon-in-later-output"
@@ -341,6 +640,16 @@ def finding_id(c, impl_obs, kind):
 
 def shrink(c):
     out = []
+    if c["kind"] in ("gen", "idx"):
+        return out
+    if c["kind"] == "axes":
+        sp = c["specs"]
+        for j in range(len(sp)):
+            out.append({"kind": "axes", "specs": sp[:j] + sp[j + 1:]})
+        for j, (i, o) in enumerate(sp):
+            for q in range(len(i)):
+                out.append({"kind": "axes", "specs": sp[:j] + [[i[:q] + i[q + 1:], o]] + sp[j + 1:]})
+        return out
     if c["kind"] == "parse":
         t = c["s"]
         for i in range(len(t)):
